@@ -718,6 +718,8 @@ func IsValidFilter(filter string, forPublish bool) bool {
 		if strings.ContainsRune(filter, '+') || strings.ContainsRune(filter, '#') {
 			return false //[MQTT-3.3.2-2]
 		}
+
+		return true // the remaining rules apply to topic filters only, not to topic names
 	}
 
 	wildhash := strings.IndexRune(filter, '#')
